@@ -326,6 +326,140 @@ func dupSpawnScenario(byParent bool, bounds []int) *vexp.Scenario {
 	}
 }
 
+// prelaunchScenario: the documented variant of subscribing before the actor exists - in OnPrelaunch, through
+// PrelaunchContext.EventStream(). Events published after ActorOf returned must reach the actor (exactly once each), whatever
+// was published while it was being created; the same across a restart, and the subscription of an actor whose creation
+// was refused must not divert events to its namesake.
+//
+// window: "none" nobody publishes before ActorOf returns | "self" the actor itself publishes from OnPrelaunch |
+// "other" another thread publishes while the actor is being created (schedule-dependent)
+//
+// refusal: how the creation of the second actor fails after its OnPrelaunch subscribed - "name-taken" (ActorOf refuses it) |
+// "prelaunch-fails" (its own OnPrelaunch returns an error after subscribing) | "prelaunch-fails-then-spawned" (as before, under
+// a name that is free at that time and is then given to an actor that subscribes to nothing)
+func prelaunchScenario(window string, restart bool, refusal string, bounds []int) *vexp.Scenario {
+	cfg := vsys.CoarseSends(200000)
+	cfg.SwitchOnSpawn = true
+	return &vexp.Scenario{
+		Name:   fmt.Sprintf("subscribe-in-prelaunch/window=%s/restart=%v/refusal=%s", window, restart, refusal),
+		Family: "prelaunch",
+		Cfg:    cfg,
+		Bounds: bounds,
+		Setup:  func(x *vexp.X) { vsys.CoarseSetupSends() },
+		Body: func(x *vexp.X) {
+			w := vsys.NewWorld(x)
+			w.Quiet = true
+			w.Start()
+			var seen []string
+			sub := &vsys.Script{Name: "sub",
+				PrelaunchCtx: func(a *vsys.Act, ctx vivid.PrelaunchContext, n int) {
+					if n > 0 {
+						return // restarted incarnation: the subscription of the path is still there
+					}
+					ctx.EventStream().Subscribe(ctx, tick{})
+					if window == "self" {
+						ctx.EventStream().Publish(ctx, tick{ID: "w0"})
+					}
+				},
+				OnMsg: func(a *vsys.Act, ctx vivid.ActorContext, m vsys.Msg) {
+					if m.ID == "boom" {
+						panic("boom")
+					}
+				},
+				OnOther: func(a *vsys.Act, ctx vivid.ActorContext, m any) {
+					if e, ok := m.(tick); ok {
+						seen = append(seen, e.ID)
+					}
+					if e, ok := m.(tock); ok {
+						seen = append(seen, "tock:"+e.ID)
+					}
+				}}
+			if window == "other" {
+				vrt.Go("publisher", func() { w.Sys.EventStream().Publish(w.Sys, tick{ID: "w0"}) })
+			}
+			refused := false
+			var lateSeen []string
+			par := &vsys.Script{Name: "p", Children: []*vsys.Script{sub}, Strategy: w.Decider("/p", false, vivid.SupervisionDecisionRestart)}
+			par.OnMsg = func(a *vsys.Act, ctx vivid.ActorContext, m vsys.Msg) {
+				if m.ID == "dup" {
+					// the refused namesake: subscribes in its OnPrelaunch, is then refused (name taken)
+					dup := &vsys.Script{Name: "sub", PrelaunchCtx: func(a *vsys.Act, ctx vivid.PrelaunchContext, n int) {
+						ctx.EventStream().Subscribe(ctx, tick{})
+						ctx.EventStream().Subscribe(ctx, tock{}) // a type the live namesake never subscribed to
+					}}
+					if refusal != "name-taken" {
+						dup.Prelaunch = func(n int) error { return fmt.Errorf("scripted prelaunch failure") }
+					}
+					if refusal == "prelaunch-fails-then-spawned" {
+						dup.Name = "late"
+					}
+					_, err := a.SpawnChild(ctx, dup)
+					refused = err != nil
+					if refusal == "prelaunch-fails-then-spawned" {
+						// the name is then given to an actor that subscribes to nothing
+						if _, err := a.SpawnChild(ctx, &vsys.Script{Name: "late", OnOther: func(a *vsys.Act, ctx vivid.ActorContext, m any) {
+							switch e := m.(type) {
+							case tick:
+								lateSeen = append(lateSeen, e.ID)
+							case tock:
+								lateSeen = append(lateSeen, "tock:"+e.ID)
+							}
+						}}); err != nil {
+							x.Fail("harness", "spawning /p/late failed: %v", err)
+						}
+					}
+				}
+			}
+			if _, err := w.SpawnRoot(par); err != nil {
+				x.Fail("harness", "spawn failed: %v", err)
+			}
+			vrt.QuiesceNoTimers()
+			inWindow := len(seen) // w0 may or may not have been published while the actor was subscribed
+			w.Sys.EventStream().Publish(w.Sys, tick{ID: "e1"})
+			vrt.QuiesceNoTimers()
+			if restart {
+				w.Sys.Tell(w.Ref("/p/sub"), vsys.Msg{ID: "boom"})
+				vrt.QuiesceNoTimers()
+			}
+			w.Sys.EventStream().Publish(w.Sys, tick{ID: "e2"})
+			vrt.QuiesceNoTimers()
+			if got := strings.Join(seen[inWindow:], ","); got != "e1,e2" {
+				x.Fail("delivered-to-every-subscriber", "an actor that subscribed in OnPrelaunch saw %v of the events e1, e2 published after ActorOf had returned (events seen before: %v)", seen[inWindow:], seen[:inWindow])
+			}
+			if window == "self" && inWindow == 0 {
+				x.Fail("event-during-creation-delivered", "the actor subscribed to the type in OnPrelaunch and then published an event of it from OnPrelaunch: subscribed at the time of publication, yet it never received the event (events seen: %v)", seen)
+			}
+			if inWindow > 1 {
+				x.Fail("delivered-once", "the event published while the subscriber was being created was delivered %d times", inWindow)
+			}
+			// events still go to the live actor, once
+			w.Sys.Tell(w.Ref("/p"), vsys.Msg{ID: "dup"})
+			vrt.QuiesceNoTimers()
+			if !refused {
+				x.Fail("harness", "the duplicate spawn was not refused")
+			}
+			before := len(seen)
+			w.Sys.EventStream().Publish(w.Sys, tick{ID: "e3"})
+			vrt.QuiesceNoTimers()
+			if got := strings.Join(seen[before:], ","); got != "e3" {
+				x.Fail("delivered-to-every-subscriber", "after a refused attempt to spawn a namesake (which subscribed in its OnPrelaunch) the live subscriber saw %v of the event e3", seen[before:])
+			}
+			before = len(seen)
+			w.Sys.EventStream().Publish(w.Sys, tock{ID: "k1"})
+			vrt.QuiesceNoTimers()
+			if len(lateSeen) > 0 {
+				x.Fail("refused-namesake-subscription-diverted", "/p/late subscribed to nothing; an earlier actor of that name, whose OnPrelaunch failed after subscribing, left its subscriptions behind and /p/late receives %v", lateSeen)
+			}
+			if len(seen) != before {
+				x.Fail("refused-namesake-subscription-diverted", "the live actor /p/sub never subscribed to tock; a namesake whose creation was refused had subscribed to it in its OnPrelaunch, and now the live actor receives %v", seen[before:])
+			}
+			x.Outcome(strings.Join(seen, ","))
+			w.Sys.Stop()
+			vrt.QuiesceNoTimers()
+		},
+	}
+}
+
 // fanoutScenario: n subscribers of one type, one publisher publishing three events from one handler: each subscriber
 // sees each event exactly once, in publication order - whatever n is.
 func fanoutScenario(n int, bounds []int) *vexp.Scenario {
@@ -395,6 +529,13 @@ func build(tier string) []*vexp.Scenario {
 		out = append(out, fanoutScenario(n, []int{0, 1}))
 	}
 	out = append(out, fanoutScenario(130, []int{0}))
+	for _, win := range []string{"none", "self", "other"} {
+		for _, rs := range []bool{false, true} {
+			out = append(out, prelaunchScenario(win, rs, "name-taken", []int{0, 1, 2}))
+		}
+	}
+	out = append(out, prelaunchScenario("none", false, "prelaunch-fails", []int{0, 1}))
+	out = append(out, prelaunchScenario("none", false, "prelaunch-fails-then-spawned", []int{0, 1}))
 	if tier == "thorough" {
 		out = append(out, vexp.Split(8, func() *vexp.Scenario { return fanoutScenario(130, []int{0, 1}) })...)
 	}
